@@ -304,6 +304,43 @@ func verifC17_MQTTCap() {
 	}
 }
 
+// verifC16_ReconnectViaOtherMember: two brokers (cluster members) over ONE session store. A
+// client with a persistent session connects to member 1 and subscribes, goes away, comes back
+// through member 2 (its session is resumed from the store) and subscribes to more, goes away,
+// and reconnects to member 1: it gets ALL its previous subscriptions back - whatever member 1
+// still remembers of the client's earlier visit must not win over the stored session.
+func verifC16_ReconnectViaOtherMember() {
+	b1 := vC16Broker(10)
+	store := vStore
+	b2 := vC16Broker(10)
+	vStore = store
+	b2.sessMgr.store = store
+
+	c1 := vConnect("a", false, "t1")
+	go b1.handleConn(c1)
+	verifQuiesce()
+	verifAssert(c1.connack == int(packets.Accepted) && vRouted(b1, "t1", "a"), "connected-and-subscribed")
+	close(c1.drop)
+	verifQuiesce()
+
+	c2 := vConnect("a", false, "t2")
+	go b2.handleConn(c2)
+	verifQuiesce()
+	verifAssert(c2.connack == int(packets.Accepted), "connected-and-subscribed")
+	verifAssert(vRouted(b2, "t1", "a") && vRouted(b2, "t2", "a"), "reconnect-gets-the-previous-subscriptions-back")
+	close(c2.drop)
+	verifQuiesce()
+
+	c3 := vConnect("a", false, "")
+	go b1.handleConn(c3)
+	verifQuiesce()
+	verifAssert(c3.connack == int(packets.Accepted), "connected-and-subscribed")
+	verifAssert(vRouted(b1, "t1", "a") && vRouted(b1, "t2", "a"), "reconnect-gets-the-previous-subscriptions-back")
+	cl := b1.clients["a"]
+	verifAssert(cl != nil && cl.session != nil && len(cl.session.info.Topics) == 2, "resumed-session-holds-every-subscription")
+	verifCover("came-back-through-another-member")
+}
+
 // verifC17_MQTTCapReturning: the cap counts CONNECTED clients; a session the broker still keeps
 // for a client that went away (cleanSession=false) holds no slot and gives no right to one: with
 // the broker full, the returning client's CONNECT is refused like any other.
